@@ -11,6 +11,7 @@ import (
 	"flag"
 	"fmt"
 	"go/ast"
+	"go/token"
 	"go/types"
 	"os"
 	"path/filepath"
@@ -54,7 +55,17 @@ func main() {
 	noEvidence := flag.Bool("no-evidence", false, "do not write evidence files (used for scratch copies and overlays)")
 	mutants := flag.String("mutants", "", "run the sensitivity corpus from this directory for the property (thorough tier does this automatically)")
 	dumpFuncs := flag.Bool("dump-funcs", false, "maintenance: print the reference table of named functions (name, signature) of the tree")
+	dumpWriters := flag.Bool("dump-writers", false, "maintenance: print, for every struct field of the library, the functions that write it")
 	flag.Parse()
+	if *dumpWriters {
+		w, err := LoadWorld(*repo, nil, nil)
+		if err != nil {
+			fmt.Fprintln(os.Stderr, err)
+			os.Exit(2)
+		}
+		dumpFieldWriters(w)
+		return
+	}
 	if pf := os.Getenv("GOCHK_CPUPROFILE"); pf != "" {
 		if f, err := os.Create(pf); err == nil {
 			_ = pprof.StartCPUProfile(f)
@@ -75,6 +86,15 @@ func main() {
 					if fd, ok := d.(*ast.FuncDecl); ok {
 						if obj, ok := p.TypesInfo.Defs[fd.Name].(*types.Func); ok {
 							lines = append(lines, funcShortName(obj)+"\t"+sigKey(obj.Type().(*types.Signature)))
+						}
+					}
+					if gd, ok := d.(*ast.GenDecl); ok && gd.Tok == token.TYPE {
+						for _, sp := range gd.Specs {
+							if ts, ok := sp.(*ast.TypeSpec); ok {
+								if obj, ok := p.TypesInfo.Defs[ts.Name].(*types.TypeName); ok {
+									lines = append(lines, "type:"+shortName(obj.Pkg().Path())+"."+obj.Name()+"\ttype")
+								}
+							}
 						}
 					}
 				}
